@@ -15,7 +15,7 @@ from ..pipelang import gen as G
 from . import c01
 
 ID = "C10"
-LEVEL = "exploration"
+LEVEL = "fault_enumeration"
 RULE = (
     "Hypothesis-generated PipeLang programs on a fresh store {memory, local, local+LRU}; one function reachable from the "
     "evaluated root is made to raise (through the non-accepted log module) an instance of {ValueError, KeyError, custom "
